@@ -231,6 +231,15 @@ def _table_update(run, P):
                why="failure propagates to the caller")
 
     # C14.latch
+    latch_sets = [x for x in ast.walk(fset.node) if isinstance(x, ast.Assign)
+                  and any(isinstance(t_, ast.Attribute) and dotted(t_.value) == "self"
+                          and isinstance(x.value, ast.Constant) and x.value.value is True
+                          for t_ in x.targets)]
+    if not latch_sets:
+        # changes are recorded in some other way (a set of changed names, a snapshot):
+        # the clauses below speak about a boolean latch
+        raise AnalysisError("SymbolKindTable.set sets no boolean change latch; how changes are "
+                            "recorded is not recognised")
     cls_funcs = list(T.methods.values())
     seen = set()
     for fn in cls_funcs:
@@ -682,6 +691,11 @@ def _seq_signature(fn, expr):
         elif isinstance(e, ast.Call) and isinstance(e.func, ast.Name) and e.func.id in ("list", "tuple") \
                 and len(e.args) == 1:
             e = e.args[0]
+        elif isinstance(e, ast.Call) and isinstance(e.func, ast.Name) and e.func.id == "map" \
+                and len(e.args) == 2:
+            e = e.args[1]           # map(f, xs): one result per element of xs, in its order
+        elif isinstance(e, ast.GeneratorExp) and len(e.generators) == 1 and not e.generators[0].ifs:
+            e = e.generators[0].iter
         elif isinstance(e, ast.Call) and isinstance(e.func, ast.Name) and e.func.id in _ORDER_CALLS \
                 and e.args:
             ops.append(e.func.id + ("(key)" if e.keywords else ""))
@@ -812,6 +826,20 @@ def _sweeps(run, P):
             if isinstance(v, ast.ListComp) and isinstance(v.elt, ast.Call) \
                     and dotted(v.elt.func) in ("list", "tuple") and norm(v.generators[0].iter) == p_:
                 copies.append(n)
+            elif isinstance(v, ast.ListComp) and isinstance(v.elt, ast.IfExp) \
+                    and norm(v.generators[0].iter) == p_ and isinstance(v.generators[0].target, ast.Name):
+                # x if isinstance(x, (list, tuple)) else list(x): what can be walked again is kept
+                x_ = v.generators[0].target.id
+                ie = v.elt
+                t_ = ie.test
+                keeps = isinstance(t_, ast.Call) and dotted(t_.func) == "isinstance" \
+                    and dotted(t_.args[0]) == x_ and dotted(ie.body) == x_ \
+                    and all(dotted(c_) in ("list", "tuple") for c_ in (
+                        t_.args[1].elts if isinstance(t_.args[1], ast.Tuple) else [t_.args[1]]))
+                makes = isinstance(ie.orelse, ast.Call) and dotted(ie.orelse.func) in ("list", "tuple") \
+                    and ie.orelse.args and dotted(ie.orelse.args[0]) == x_
+                if keeps and makes:
+                    copies.append(n)
             elif isinstance(v, ast.Name):
                 # filled by a loop 'for ph in phases: <v>.append(list(ph))'
                 fills = [x for x in ast.walk(F.node) if isinstance(x, ast.For)
@@ -825,6 +853,14 @@ def _sweeps(run, P):
     outer = [n for n in g.nodes if n.kind == "test" and isinstance(n.label, ast.While)
              and isinstance(n.ast, ast.Constant) and n.ast.value is True]
     ok = bool(copies) and bool(outer) and not g.always_preceded(outer, copies)
+    if not copies and any(isinstance(r_, ast.Raise) and r_.exc is not None and "TypeError" in ast.unparse(r_.exc)
+                          and not any(isinstance(w_, ast.While) and any(y is r_ for y in ast.walk(w_))
+                                      for w_ in ast.walk(F.node))
+                          for r_ in ast.walk(F.node)):
+        # no copy, but what cannot be walked twice is refused up front (and the callers pass
+        # lists): another contract, not read by this clause
+        raise AnalysisError("SymbolKindFinder.__call__ refuses one-shot iterables instead of "
+                            "copying them; not decided")
     run.ob("C14.sweeps", F, copies[0].ast if copies else F.node, ok,
            construct=f"{p_} = [list(phase) for phase in {p_}] before the fixed-point loop",
            why="the callers pass generators (get_statements_in_ast): consumed by the "
